@@ -269,3 +269,109 @@ def byref_first_access(prog, fn, param_index):
     da = DefAssign(prog, fn, {p['id']: p['name']}, arrays=arrays)
     early = da.run()
     return 'R' if early else 'W'
+
+
+# ----------------------------------------------------------------------------- function-local persistent state
+def _exact_key_test(fn, statics, cond):
+    """cond (an IR expression) is a conjunction/disjunction of exact (in)equality tests `param ==/!= static`, possibly
+    negated, and nothing else.  Returns the set of parameter ids compared, or None."""
+    sid = set(d['id'] for d in statics)
+    pids = set(p['id'] for p in fn.params)
+    seen = set()
+
+    def rec(e):
+        e = strip_casts(e)
+        k = e.get('k')
+        if k == 'Un' and e.get('op') == '!':
+            return rec(e['e'])
+        if k == 'Bin' and e.get('op') in ('&&', '||'):
+            return rec(e['lhs']) and rec(e['rhs'])
+        if k == 'Bin' and e.get('op') in ('==', '!='):
+            a, b = strip_casts(e['lhs']), strip_casts(e['rhs'])
+            for x, y in ((a, b), (b, a)):
+                if x.get('k') == 'Ref' and x.get('id') in pids and y.get('k') == 'Ref' and y.get('id') in sid:
+                    seen.add(x['id'])
+                    return True
+            return False
+        return False
+    return seen if rec(cond) else None
+
+
+def history_dependence(prog, fn):
+    """Verdicts for the persistent locals of fn: [(name, 'holds'|'violated', detail)].
+      * a static initialised from the arguments of the first call: violated (the first call decides for all later ones);
+      * a mutable static that every call assigns before reading it: holds (scratch storage);
+      * a mutable static that can be read before this call assigned it carries history.  It is admissible only as an
+        exact cache: the one test that decides between reuse and recomputation compares every parameter that the
+        recomputation uses with `==`/`!=` against a static, and nothing else; a tolerance test or a partial key makes the result depend on the
+        previous call: violated."""
+    res = []
+    st_all = []
+    for s in walk_stmts(fn.body):
+        if s['k'] == 'Decl':
+            for d in s['decls']:
+                if d.get('static'):
+                    st_all.append(d)
+    for d in st_all:
+        if d.get('init') is not None:
+            deps = sorted(set(n['name'] for n in walk_expr(d['init']) if n.get('k') == 'Ref' and n.get('rk') in ('param', 'local')))
+            if deps:
+                res.append((d['name'], 'violated', 'static `%s` is initialised from %s of the first call and keeps that value for every later call' % (d['name'], deps)))
+    for e in all_exprs(fn, into_lambdas=False):
+        if e.get('k') == 'Lambda':
+            for s in walk_stmts(e['fn']['body']):
+                if s['k'] == 'Decl':
+                    for d in s['decls']:
+                        if d.get('static'):
+                            res.append((d['name'], 'violated', 'static `%s` inside a lambda keeps state between calls' % d['name']))
+    mut = [d for d in st_all if not d.get('const')]
+    if not mut:
+        return res
+    tracked = {d['id']: d['name'] for d in mut}
+    arrays = [d['id'] for d in mut if d['ty'].startswith('std::vector') or d['ty'].endswith(']')]
+    da = DefAssign(prog, fn, tracked, {}, None, arrays)
+    early = da.run()
+    by = {}
+    for name, node, why in early:
+        by.setdefault(name, []).append(node)
+    carrying = [d for d in mut if d['name'] in by]
+    for d in mut:
+        if d['name'] not in by:
+            res.append((d['name'], 'holds', 'static `%s` is assigned by every call before it is read' % d['name']))
+    if not carrying:
+        return res
+    # the reuse test: if-conditions that mention a history-carrying static
+    cid = set(d['id'] for d in carrying)
+    tests = [s for s in walk_stmts(fn.body) if s['k'] == 'If' and any(n.get('k') == 'Ref' and n.get('id') in cid for n in walk_expr(s['cond']))]
+    names = ', '.join('`%s`' % d['name'] for d in carrying)
+    if len(tests) != 1:
+        for d in carrying:
+            res.append((d['name'], 'violated', 'static %s can be read (line %s) before this call assigned it and %d tests decide about reusing it: '
+                        'the value an earlier call left behind enters the result' % (names, by[d['name']][0].get('l'), len(tests))))
+        return res
+    keyed = _exact_key_test(fn, mut, tests[0]['cond'])
+    # the arguments the remembered value is computed from: every parameter used in the recomputation branch(es) of the test
+    allp = set()
+    pid_ = set(p['id'] for p in fn.params)
+    for br in (tests[0].get('then'), tests[0].get('else')):
+        if br is None:
+            continue
+        writes_static = any(n.get('k') == 'Ref' and n.get('id') in tracked for st_ in walk_stmts(br) for e_ in stmt_exprs(st_) for n in walk_expr(e_)
+                            if True)
+        if writes_static:
+            for st_ in walk_stmts(br):
+                for e_ in stmt_exprs(st_):
+                    for n in walk_expr(e_):
+                        if n.get('k') == 'Ref' and n.get('id') in pid_:
+                            allp.add(n['id'])
+    if keyed is not None and allp and allp <= keyed:
+        for d in carrying:
+            res.append((d['name'], 'holds', 'exact cache: reused only when every argument equals the remembered one'))
+    else:
+        why = 'the reuse test `%s` is not an exact comparison of every argument with the remembered one' % show(tests[0]['cond'])
+        if keyed is not None:
+            missing = [p['name'] for p in fn.params if p['id'] in allp and p['id'] not in keyed]
+            why = 'the reuse test `%s` ignores the argument(s) %s' % (show(tests[0]['cond']), missing)
+        for d in carrying:
+            res.append((d['name'], 'violated', 'static `%s` carries a value from an earlier call into this one: %s' % (d['name'], why)))
+    return res
